@@ -84,6 +84,13 @@ func (e *Exec) intrinsic(name string, fn *types.Func, recvExpr ast.Expr, call *a
 			return []Term{{fmt.Sprintf("(exists ((%s Int)) (and (<= 0 %s) (< %s (len!%s %s)) (= (select (arr!%s %s) %s) %s)))", bv, bv, bv, ss, sn, ss, sn, bv, x.S), tBool}}, true
 		}
 	case "fmt.Sprintf", "fmt.Sprint", "fmt.Sprintln":
+		if name == "fmt.Sprintf" && len(call.Args) > 0 && !c.spec {
+			// Sprintf is modelled as a function of its format and arguments; that reading needs the format to be a
+			// compile-time constant (a computed format would have its '%' directives interpreted)
+			if tv, ok := c.fr.info.Types[call.Args[0]]; ok && tv.Value == nil {
+				e.safetyAssert(c, "format-constant", "false", exprText(call.Args[0]), call)
+			}
+		}
 		args := e.evalArgs(call.Args, c)
 		return []Term{e.sprintf(args, c.st)}, true
 	case "fmt.Errorf", "errors.New", "errors.Join":
